@@ -2,7 +2,7 @@
    The same function is run extracted to OCaml (ocaml/driver.ml) and inside Coq (vm_compute).
    Each model contributes one line: its Entry module's [entry]. *)
 From DippyV Require Import Base.Str Base.Sx Entry.Common.
-From DippyV Require Entry.WalkerE Entry.LadderE Entry.ConfigTextE Entry.RulesE Entry.SqlE Entry.PyArgsE Entry.LayersE Entry.LoggingE Entry.CacheE Entry.WrappersE Entry.HookE.
+From DippyV Require Entry.WalkerE Entry.LadderE Entry.ConfigTextE Entry.RulesE Entry.SqlE Entry.PyArgsE Entry.LayersE Entry.LoggingE Entry.CacheE Entry.WrappersE Entry.HookE Entry.StatuslineE.
 
 Definition run (orc : oracle) (inp : sx) : sx :=
   match inp with
@@ -18,7 +18,8 @@ Definition run (orc : oracle) (inp : sx) : sx :=
         Entry.LoggingE.entry orc cmd args;
         Entry.CacheE.entry orc cmd args;
         Entry.WrappersE.entry orc cmd args;
-        Entry.HookE.entry orc cmd args
+        Entry.HookE.entry orc cmd args;
+        Entry.StatuslineE.entry orc cmd args
       ]
   | _ => A $"?malformed-request"
   end.
